@@ -63,6 +63,16 @@ Theorem C12_layout_no_shadow_partial :
   forall M, child_closed M -> layout_sound M = true.
 Proof. exact child_closed_sound. Qed.
 
+(* ... a key with no key strictly below it is a plain module file, for every key set; so on child-closed key sets the
+   generator's layout IS the idealised rule, and C12_descendant_forces_init / C12_no_file_dir_shadow speak about it *)
+Theorem C12_leaf_is_module :
+  forall M m, In m M -> m <> [] -> existsb (strict_prefix m) M = false -> lookup_pkg (layout M) m = Some false.
+Proof. exact leaf_is_module. Qed.
+
+Theorem C12_layout_is_init_partial :
+  forall M m, child_closed M -> In m M -> m <> [] -> lookup_pkg (layout M) m = Some (is_init M m).
+Proof. exact layout_is_init. Qed.
+
 (* ... and the full statement is false of the faithful model: a, a.b.c and an unrelated x.y leave a as a.py next
    to the directory a/ (known finding C12-shadow; with x in place of x.y the package a.b is visited and a is a
    package, LayoutProofs.layout_between_example) *)
@@ -89,3 +99,5 @@ Print Assumptions C12_no_file_dir_shadow.
 Print Assumptions C12_child_makes_package.
 Print Assumptions C12_layout_no_shadow_partial.
 Print Assumptions C12_layout_shadow_refuted.
+Print Assumptions C12_leaf_is_module.
+Print Assumptions C12_layout_is_init_partial.
